@@ -351,7 +351,20 @@ impl<'r> G<'r> {
         let mut ts = vec![];
         for _ in 0..n {
             self.reads_emitted += 1;
-            ts.push(if self.rng.chance(2, 3) {
+            // a later target whose subscript (or whose very name) depends on an earlier target of the same
+            // READ: targets must be evaluated and stored one after the other, not all up front
+            if let Some(prev) = ts.last().cloned() {
+                let prev: LValue = prev;
+                if prev.index.is_none() && !prev.name.ends_with('$') && self.rng.chance(1, 2) {
+                    self.feat("READ-dependent-target");
+                    let sub = if self.rng.coin() { Expr::Var(prev.name.clone()) } else {
+                        bin(Bin::Add, Expr::Var(prev.name.clone()), Expr::Num("1".into())) };
+                    let name = if self.rng.chance(1, 3) { "R$" } else { "E" };
+                    ts.push(LValue { name: name.to_string(), index: Some(vec![sub]) });
+                    continue;
+                }
+            }
+            ts.push(if self.rng.chance(3, 5) {
                 // a string target accepts every item
                 LValue::scalar(self.rng.s(STR_VARS))
             } else if self.rng.chance(1, 4) {
